@@ -46,8 +46,10 @@ Parents(o, t) == Range(o.par[t])
 (* Abstract state.  Status of a transaction:                               *)
 (*   must  : its broadcast was accepted and it has not been reported       *)
 (*           confirmed since => every rebroadcast that starts must have it *)
-(*   conf  : reported confirmed (and not accepted again since)             *)
-(*           => no rebroadcast that starts may have it                     *)
+(*   conf  : reported confirmed - MarkAsConfirmed has RETURNED, or a        *)
+(*           rebroadcast result said so and the handler was idle - and not *)
+(*           accepted again since                                          *)
+(*           => no rebroadcast that starts after that may have it          *)
 (*   cwait : a rebroadcast result said "confirmed" while the handler was   *)
 (*           busy; the report reaches the handler when it is idle again    *)
 (*   may   : both readings of the statement apply (accepted earlier, a     *)
@@ -126,12 +128,22 @@ AbsCore(a, act, o2) ==
       a2 == Upd2(a, a1, act, o2)
       a3 == Upd3(a2, o2)
       st == Started(a, act, o2)
+      \* A MarkAsConfirmed call that had been waiting for the busy handler
+      \* returned in the very step in which the handler also took a trigger:
+      \* the report may have been made before or after that rebroadcast
+      \* started, so its tx is neither required in it nor forbidden.
+      amb == IF MarkReturned(a, act, o2) /\ a.lmk # 0 THEN {a1.mkTx} ELSE {}
       a4 == IF st
-            THEN [a3 EXCEPT !.need  = a3.must,
+            THEN [a3 EXCEPT !.need  = a3.must \ amb,
                             !.forbR = Univ(o2) \ (a3.must \cup a3.may \cup a3.conf \cup a3.cwait),
-                            !.forbC = a3.conf,
+                            !.forbC = a3.conf \ amb,
                             !.seen  = {}, !.judged = TRUE]
-            ELSE IF NewR(a, o2) /\ ~ActiveBefore(a)
+            \* a callback of a rebroadcast we did not see start, or one that
+            \* arrives in a step in which a trigger reached the handler while
+            \* the previous rebroadcast was finishing (its last confirmation
+            \* report was waiting for the busy handler): it may belong to the
+            \* old rebroadcast or to a new one - not judged
+            ELSE IF NewR(a, o2) /\ (~ActiveBefore(a) \/ Trig(a, act, o2))
             THEN [a3 EXCEPT !.need = {}, !.forbR = {}, !.forbC = {},
                             !.seen = {}, !.judged = FALSE]
             ELSE a3
@@ -152,7 +164,7 @@ Viol(a, o, act, aNext, o2) ==
       st    == Started(a, act, o2)
       newR  == NewR(a, o2)
       t     == o2.rcb
-      seenB == IF st \/ ~ActiveBefore(a) THEN {} ELSE a.seen
+      seenB == IF st \/ ~ActiveBefore(a) \/ Trig(a, act, o2) THEN {} ELSE a.seen
       ended == (ActiveBefore(a) \/ st) /\ ~a2.active
   IN
   \* "... is included in the rebroadcast that every later block event or
